@@ -32,7 +32,7 @@ from ..basetypes import (
 )
 from ..constructeddata import Array, ArrayOf, SequenceOf
 
-from ..errors import ExecutionError
+from ..errors import ExecutionError, InvalidParameterDatatype
 from ..object import (
     Property,
     ReadableProperty,
@@ -948,7 +948,24 @@ def Commandable(
                         if _debug:
                             Commandable._debug("    - write a value")
 
+                        # check the value before anything is changed
+                        if issubclass(datatype, Atomic):
+                            if not datatype.is_valid(value):
+                                raise InvalidParameterDatatype(
+                                    "%s must be of type %s"
+                                    % (presentValue, datatype.__name__)
+                                )
+                        elif not isinstance(value, datatype):
+                            raise InvalidParameterDatatype(
+                                "%s must be of type %s"
+                                % (presentValue, datatype.__name__)
+                            )
+
                         if issubclass(datatype, Enumerated):
+                            if value not in datatype._xlate_table:
+                                raise ExecutionError(
+                                    errorClass="property", errorCode="valueOutOfRange"
+                                )
                             value = datatype._xlate_table[value]
                             if _debug:
                                 Commandable._debug(
